@@ -15,6 +15,7 @@ Targets (writer <-> loader):
                                                                  (+ ExperimentConfigurationFactory on clean histories)
 """
 import contextlib
+import copy
 import json
 import os
 import shutil
@@ -48,6 +49,8 @@ ASSUMPTIONS = [
     'single fault per history; after an I/O error every later operation succeeds',
     'the statement is judged per file (each file is previous-or-new); no cross-file consistency is required',
     'a missing output.txt / output.json and an empty listing are the same logical value (no key-output produced yet)',
+    'output.txt is an INI listing: its values are compared modulo leading/trailing blanks (the format cannot carry them); '
+    'output.json, the listing the product loads, is compared exactly',
     'status.txt: awkward strings are only placed in the error description (the only free-text field); states, exit status '
     'and stage names come from their vocabularies; numeric fields are compared by their string form',
     'outputs: key-output names / file names that the reference grammar itself rejects (":" in a file name) or that cannot '
@@ -107,6 +110,25 @@ def clear_dir(d, keep=()):
             os.remove(p)
 
 
+def files_snapshot(d):
+    out = {}
+    for n in os.listdir(d):
+        p = os.path.join(d, n)
+        if os.path.isfile(p) and not os.path.islink(p):
+            with open(p, 'rb') as f:
+                out[n] = f.read()
+    return out
+
+
+def files_restore(d, snap, keep=()):
+    clear_dir(d, keep=keep)
+    for n, b in snap.items():
+        if n in keep:
+            continue
+        with open(os.path.join(d, n), 'wb') as f:
+            f.write(b)
+
+
 def jsonable(obj):
     if isinstance(obj, dict):
         return {(k if isinstance(k, str) else repr(k)): jsonable(v) for k, v in obj.items()}
@@ -140,10 +162,20 @@ class Target:
     def after_update(self, j):
         pass
 
+    def snapshot(self):
+        """State (files + the writer's memory) after a clean prefix, so that fault runs need not re-execute it."""
+        raise NotImplementedError
+
+    def restore(self, snap):
+        raise NotImplementedError
+
     def expected(self, label, j):
         raise NotImplementedError
 
     def observe(self, label):
+        raise NotImplementedError
+
+    def path_of(self, label):
         raise NotImplementedError
 
     def matches(self, label, obs, exp):
@@ -185,6 +217,14 @@ class StatusTarget(Target):
 
     def do_update(self, j):
         st, u = self.st, self.history[j - 1]
+        try:
+            self._set(st, u)
+        except Exception as e:
+            raise HarnessError('a Status setter rejected a value of the reference history: %r' % (e,))
+        return st.update()
+
+    @staticmethod
+    def _set(st, u):
         st.setCurrentStage(u['current-stage'])
         st.setStageState(u['stage-state'])
         st.setExperimentState(u['experiment-state'])
@@ -199,10 +239,21 @@ class StatusTarget(Target):
             st.removeErrorDescription()
         elif d != '<KEEP>':
             st.setErrorDescription(d)
-        return st.update()
+
+    def path_of(self, label):
+        return self.path
 
     def after_update(self, j):
         self.dyn[j] = '%s' % (self.st.data['updated-on'],)
+
+    def snapshot(self):
+        return files_snapshot(self.dir), copy.deepcopy(self.st.data), dict(self.dyn)
+
+    def restore(self, snap):
+        files_restore(self.dir, snap[0])
+        self.st = self.cls(self.path, {}, list(STAGES))
+        self.st.data = copy.deepcopy(snap[1])
+        self.dyn = dict(snap[2])
 
     def expected(self, label, j):
         e = ref.status_expected(self.history, j, STAGES, CREATED)
@@ -312,11 +363,23 @@ class OutputTarget(Target):
         clear_dir(self.outdir, keep=('status.txt',))
         self.agent.parse_key_outputs()
 
+    def snapshot(self):
+        return files_snapshot(self.outdir), {k: copy.deepcopy(v['status']) for k, v in self.agent.dataReferences.items()}
+
+    def restore(self, snap):
+        files_restore(self.outdir, snap[0], keep=('status.txt',))
+        self.agent.parse_key_outputs()
+        for k, v in snap[1].items():
+            self.agent.dataReferences[k]['status'] = copy.deepcopy(v)
+
     def do_update(self, j):
         for key, p in self.paths.items():
             os.utime(p, (self.mtimes[j - 1][key],) * 2)
         self.agent.process_stage(self.seq[j - 1])
         return None
+
+    def path_of(self, label):
+        return os.path.join(self.outdir, label)
 
     def expected(self, label, j):
         state = ref.outputs_expected(self.spec, self.seq, j, self.mtimes)
@@ -333,15 +396,24 @@ class OutputTarget(Target):
         except Exception as e:
             return unloadable(e)
 
+    @staticmethod
+    def ini_view(exp):
+        # an INI value cannot carry leading / trailing blanks: output.txt is compared modulo those (output.json is not)
+        return exp if exp == ABSENT else {n: {k: v.strip() for k, v in e.items()} for n, e in exp.items()}
+
     def matches(self, label, obs, exp):
         empty = (ABSENT, {})
         if obs in empty and exp in empty:
             return True
+        if label == 'output.txt':
+            exp = self.ini_view(exp)
         return obs == exp
 
     def shape(self, label, obs, exps):
         if is_unloadable(obs) or obs == ABSENT:
             return Target.shape(self, label, obs, exps)
+        if label == 'output.txt':
+            exps = [self.ini_view(e) for e in exps]
         for exp in exps:
             if exp == ABSENT or set(exp) != set(obs):
                 continue
@@ -394,10 +466,19 @@ class DetailsTarget(Target):
     def reset(self):
         clear_dir(self.outdir, keep=('status.txt',))
 
+    def snapshot(self):
+        return (files_snapshot(self.outdir),)
+
+    def restore(self, snap):
+        files_restore(self.outdir, snap[0], keep=('status.txt',))
+
     def do_update(self, j):
         self.db.value = self.values[j - 1]
         self.sm.try_generate_status_details()
         return None
+
+    def path_of(self, label):
+        return self.path
 
     def expected(self, label, j):
         return ref.details_expected(self.values, j)
@@ -440,6 +521,7 @@ class InstanceTarget(Target):
         self.pristine = self.conf._unreplicated.copy()
         self.updates = ref.instance_updates(params['kinds'], [AWKWARD[s] for s in params['strings']])
         self.n_updates = len(self.updates)
+        self.memo = {}
         self.manifests = [ref.manifest_value(j + 1, u['string']) for j, u in enumerate(self.updates)]
         self.paths = {'flowir_instance.yaml': os.path.join(self.confdir, 'flowir_instance.yaml'),
                       'manifest.yaml': os.path.join(self.confdir, 'manifest.yaml')}
@@ -452,6 +534,14 @@ class InstanceTarget(Target):
         # the state just before the instance files are written for the first time
         clear_dir(self.confdir, keep=('flowir_package.yaml',))
         self.conf._unreplicated = self.pristine.copy()
+
+    def snapshot(self):
+        return files_snapshot(self.confdir), self.conf._unreplicated.copy(), self.conf._manifest
+
+    def restore(self, snap):
+        files_restore(self.confdir, snap[0], keep=('flowir_package.yaml',))
+        self.conf._unreplicated = snap[1].copy()
+        self.conf._manifest = snap[2]
 
     def do_update(self, j):
         u = self.updates[j - 1]
@@ -469,6 +559,9 @@ class InstanceTarget(Target):
         else:
             self.conf.store_unreplicated_flowir_to_disk()
         return None
+
+    def path_of(self, label):
+        return self.paths[label]
 
     def expected(self, label, j):
         if label == 'manifest.yaml':
@@ -498,8 +591,17 @@ class InstanceTarget(Target):
             return ABSENT
         try:
             if label == 'flowir_instance.yaml':
-                root, _docs = self.flowir.package_document_load(p, True)
-                return self.project(root)
+                # the loader is a function of the file content: identical contents (e.g. "crash before write k" and
+                # "ENOSPC in write k with nothing written") are loaded once
+                with open(p, 'rb') as f:
+                    content = f.read()
+                if content not in self.memo:
+                    try:
+                        root, _docs = self.flowir.package_document_load(p, True)
+                        self.memo[content] = self.project(root)
+                    except Exception as e:
+                        self.memo[content] = unloadable(e)
+                return self.memo[content]
             chosen = {}
             c = self.factory.configurationForExperiment(
                 self.inst, is_instance=True, createInstanceFiles=False, updateInstanceFiles=False, primitive=True,
@@ -530,7 +632,32 @@ TARGETS = {'status': StatusTarget, 'outputs': OutputTarget, 'details': DetailsTa
 
 
 # ====================================================================================== execution + judgement
-def run_history(col, target, fault=None, k=None, judge_clean=True, log_of=None):
+def reference_update(target, k, snaps, buffered):
+    """(write log, {file: bytes}) of a clean update k executed from exactly the state every fault run of update k starts
+    from (pristine state for k = 1, else the restored snapshot of the clean prefix 1..k-1), under the given file model."""
+    from verif.faultfs import FaultFS
+    if k == 1:
+        target.reset()
+    else:
+        target.restore(snaps[k - 1])
+    with FaultFS(target.root, buffered=buffered) as fs:
+        try:
+            target.do_update(k)
+        except Exception:
+            pass            # judged in the clean run
+        finally:
+            target.after_update(k)
+    return fs.log, target.snapshot()[0]
+
+
+def short_log(log):
+    """The log with paths reduced to their last two components (instance directory names are random)."""
+    from verif.faultfs import Op
+    return [Op(o.index, o.name, os.sep.join(o.path.split(os.sep)[-2:]), o.size) for o in log]
+
+
+def run_history(col, target, fault=None, k=None, judge_clean=True, log_of=None, snaps=None, full_bytes=None,
+                buffered=False):
     """Executes updates 1..n of target's history; `fault` (verif.faultfs.Fault) is injected in update k.
 
     clean run (fault None): every update is judged for fidelity when judge_clean; returns {j: write log of update j}.
@@ -540,13 +667,19 @@ def run_history(col, target, fault=None, k=None, judge_clean=True, log_of=None):
     from verif.faultfs.interposer import InterposerError
     root = target.root
     base = {'target': target.name, 'params': target.params}
-    target.reset()
     logs = {}
+    landed = {}          # label -> the expected version found on disk after the previous judged update (fault runs)
     n = target.n_updates
-    for j in range(1, n + 1):
+    first = 1
+    if fault is not None and snaps is not None and k > 1:
+        target.restore(snaps[k - 1])      # == the state after the clean updates 1..k-1
+        first = k
+    else:
+        target.reset()
+    for j in range(first, n + 1):
         this_fault = fault if (fault is not None and j == k) else None
         crashed, raised, ack = False, None, None
-        with FaultFS(root, this_fault) as fs:
+        with FaultFS(root, this_fault, buffered=buffered) as fs:
             try:
                 ack = target.do_update(j)
             except Crash:
@@ -560,6 +693,8 @@ def run_history(col, target, fault=None, k=None, judge_clean=True, log_of=None):
             finally:
                 target.after_update(j)
         logs[j] = fs.log
+        if fault is None and snaps is not None:
+            snaps[j] = target.snapshot()
         if this_fault is not None:
             if not fs.fired:
                 raise HarnessError('fault %r was not reached in update %d of %s %r (log has %d entries)'
@@ -587,35 +722,51 @@ def run_history(col, target, fault=None, k=None, judge_clean=True, log_of=None):
         for label in labels:
             col.evaluated()
             case = dict(base, k=k, fault=fault.to_json() if fault is not None else None, judged_update=j, file=label,
-                        mode=mode, fault_file=fault_file)
+                        mode=mode, fault_file=fault_file, buffered=buffered)
             if fault is not None or j >= 2 or target.awkward():
-                col.nontriv([target.name, target.params, j, label, case['fault'], k])
+                col.nontriv([target.name, target.params, j, label, case['fault'], k, buffered])
             obs = target.observe(label)
             new = target.expected(label if label in target.files else target.files[0], j)
             prev = target.expected(label if label in target.files else target.files[0], j - 1)
             if this_fault is None:
                 accept = [new]
+                # an update that does not change this file's logical value (e.g. the manifest in a 'store' update) need not
+                # rewrite it: what an earlier failed update legitimately left there is still acceptable
+                if fault is not None and new == prev and landed.get(label) is not None:
+                    accept.append(landed[label])
             else:
                 accept = [prev, new]
                 if this_fault.kind == 'ioerror' and ack is True:
                     accept = [new]        # the writer reported success: the new version must be what is on disk
             hit = [i for i, e in enumerate(accept) if target.matches(label, obs, e)]
+            landed[label] = accept[hit[0]] if hit else None
             if hit:
                 which = 'new' if accept[hit[0]] is new else 'prev'
                 if len(accept) == 2 and target.matches(label, obs, prev) and target.matches(label, obs, new):
                     which = 'prev=new'
                 extra = '+raised' if raised is not None and this_fault is not None else ''
-                col.outcome('%s:%s:%s:%s%s' % (target.name, label, mode, which, extra))
+                col.outcome('%s:%s:%s%s:%s%s' % (target.name, label, 'buffered-' if buffered and fault is not None else '', mode, which, extra))
                 continue
             shp = target.shape(label, obs, accept)
+            torn = None
+            if fault is not None and full_bytes is not None and label in target.files:
+                # is the file on disk a proper prefix of what the complete update k writes? (signature of a file that
+                # is written in place, or of a torn temporary file that was renamed over the target)
+                full = full_bytes.get(label)
+                disk = None
+                if os.path.isfile(target.path_of(label)):
+                    with open(target.path_of(label), 'rb') as fh:
+                        disk = fh.read()
+                torn = bool(full is not None and disk is not None and len(disk) < len(full) and full.startswith(disk))
             if raised is not None and this_fault is None:
                 shp = 'update-raised:%s:%s' % (type(raised).__name__, shp)
-            sig = '%s:%s:%s:%s' % (target.name, label, mode, shp)
-            col.outcome('FAIL:' + sig)
+            # the signature groups failures by defect shape; the precise mode / shape are in case['mode'], observed['shape']
+            sig = '%s:%s:%s:%s' % (target.name, label, 'clean' if fault is None else 'fault', 'torn' if torn else coarse(shp))
+            col.outcome('FAIL:%s:%s:%s%s:%s' % (target.name, label, 'buffered-' if buffered and fault is not None else '', mode, coarse(shp)))
             if this_fault is not None:
-                what = describe_fault(this_fault, log_of if log_of is not None else fs.log)
-                why = ('%s %s: after a %s in update %d the loader returns neither the previous nor the new version (%s)'
-                       % (target.name, label, what, j, shp))
+                what = describe_fault(this_fault, short_log(log_of if log_of is not None else fs.log))
+                why = ('%s %s: after a %s in update %d [%s file model] the loader returns neither the previous nor the '
+                       'new version (%s)' % (target.name, label, what, j, 'buffered' if buffered else 'unbuffered', shp))
             elif fault is not None:
                 why = ('%s %s: update %d, performed after update %d had suffered an I/O error, does not read back as '
                        'written (%s)' % (target.name, label, j, k, shp))
@@ -624,10 +775,22 @@ def run_history(col, target, fault=None, k=None, judge_clean=True, log_of=None):
                        % (target.name, label, j, shp))
             col.fail(case, why, {'loader_returned': short(obs), 'previous': short(prev), 'new': short(new),
                                  'writer_raised': repr(raised)[:300] if raised is not None else None,
-                                 'acknowledged': ack, 'shape': shp}, sig=sig)
+                                 'acknowledged': ack, 'shape': shp, 'disk_is_proper_prefix_of_new_content': torn}, sig=sig)
         if crashed:
             break
     return logs
+
+
+def coarse(shp):
+    if shp.startswith('unloadable'):
+        return 'unloadable'
+    if shp.startswith('update-raised:'):
+        return ':'.join(shp.split(':')[:2])
+    if shp.startswith('other-value'):
+        return 'other-value'
+    if all(t.endswith('-blank-stripped') for t in shp.split(',')):
+        return 'blank-stripped'
+    return shp
 
 
 def make_target(root, name, params):
@@ -647,19 +810,32 @@ def worker(col, item, tier, seed):
             sub = os.path.join(root, 'v%d' % vi)
             os.makedirs(sub)
             target = make_target(sub, item['target'], params)
-            logs = run_history(col, target, judge_clean=item.get('judge_clean', True))
+            snaps = {} if item.get('faults') else None
+            logs = run_history(col, target, judge_clean=item.get('judge_clean', True), snaps=snaps)
             col.count('clean_histories')
             if vi == 0:
                 col.sample({'target': item['target'], 'params': params, 'updates': target.n_updates,
                             'write_log_of_update_1': [op.as_list()[1:] for op in logs[1]][:12]})
             for k in item.get('faults') or []:
-                log = logs[k]
-                col.count('write_log_entries', len(log))
-                for fault in enumerate_faults(log, both_errnos=thorough):
-                    run_history(col, target, fault=fault, k=k, log_of=log)
-                    col.count('faults_injected')
-                    col.count('crash_points' if fault.kind == 'crash' else 'io_errors')
+                for buffered in (False, True):
+                    log, full_bytes = reference_update(target, k, snaps, buffered)
+                    sl, of = item.get('slice', (0, 1))
+                    if sl == 0:
+                        col.count('write_log_entries_buffered' if buffered else 'write_log_entries', len(log))
+                    for fault in enumerate_faults(log, both_errnos=thorough)[sl::of]:
+                        run_history(col, target, fault=fault, k=k, log_of=log, snaps=snaps, full_bytes=full_bytes,
+                                    buffered=buffered)
+                        col.count('faults_injected')
+                        col.count('crash_points' if fault.kind == 'crash' else 'io_errors')
             shutil.rmtree(sub, ignore_errors=True)
+    # keep a few examples per failure class and work item (all failures stay counted in n_failures / known_counts), so
+    # that one prolific class cannot crowd the others out of the runner's bounded list of examples
+    seen, kept = {}, []
+    for f in col.failures:
+        seen[f['sig']] = seen.get(f['sig'], 0) + 1
+        if seen[f['sig']] <= 2:
+            kept.append(f)
+    col.failures = kept
 
 
 def status_items(thorough):
@@ -725,7 +901,9 @@ def instance_items(thorough):
                        (['gen', 'store', 'store', 'gen'], ['section', 'empty', 'backslash-n', 'equals'])]
     for kinds, strings in fault_sets:
         for k in (1, 2, 3, 4):
-            items.append({'target': 'instance', 'judge_clean': False, 'faults': [k], 'params': {'kinds': kinds, 'strings': strings}})
+            for sl in range(4):       # the faults of one update are spread over 4 work items (load balance only)
+                items.append({'target': 'instance', 'judge_clean': False, 'faults': [k], 'slice': (sl, 4),
+                              'params': {'kinds': kinds, 'strings': strings}})
     return items
 
 
@@ -736,7 +914,7 @@ def all_items(thorough):
 def run(ctx):
     items = all_items(ctx.thorough)
     ctx.count('work_items', len(items))
-    ctx.pmap('verif.props.c14', 'worker', items, maxtasksperchild=8)
+    ctx.pmap('verif.props.c14', 'worker', items)
 
 
 def replay(ctx, case):
@@ -747,8 +925,12 @@ def replay(ctx, case):
         if case.get('fault') is None:
             run_history(_Only(ctx, case), target)
         else:
-            logs = run_history(_Only(ctx, None), target, judge_clean=False)
-            run_history(_Only(ctx, case), target, fault=Fault.from_json(case['fault']), k=case['k'], log_of=logs[case['k']])
+            snaps = {}
+            logs = run_history(_Only(ctx, None), target, judge_clean=False, snaps=snaps)
+            buffered = bool(case.get('buffered'))
+            log, full_bytes = reference_update(target, case['k'], snaps, buffered)
+            run_history(_Only(ctx, case), target, fault=Fault.from_json(case['fault']), k=case['k'], log_of=log,
+                        snaps=snaps, full_bytes=full_bytes, buffered=buffered)
 
 
 class _Only:
@@ -767,16 +949,78 @@ class _Only:
 
 
 # ====================================================================================== known-finding selectors
-def _sel(target, file=None, modes=None, shapes=None):
-    def f(failure):
-        c = failure['case']
-        shp = (failure.get('observed') or {}).get('shape', '')
-        if c['target'] != target or (file is not None and c['file'] != file):
-            return False
-        if modes is not None and not any(c['mode'] == m or c['mode'].startswith(m) for m in modes):
-            return False
-        return shapes is None or any(shp == s or shp.startswith(s) for s in shapes)
-    return f
+DATA_OPS = ('write', 'flush', 'close')      # operations that move data into the file (flush / close: buffered model)
 
 
-KNOWN_SELECTORS = {}
+def _shape(f):
+    return (f.get('observed') or {}).get('shape') or ''
+
+
+def _mode_op(f):
+    """('crash' | 'ioerror' | 'after-ioerror' | 'clean', op name or None)"""
+    m = f['case'].get('mode', '')
+    return tuple(m.split('@', 1)) if '@' in m else (m, None)
+
+
+def _escapable(label):
+    return ref.unicode_escape(AWKWARD[label]) != AWKWARD[label]
+
+
+def _sel_status_escaped_again(f):
+    """Status.writeToStream escapes the description inside self.data, so every later write escapes it once more."""
+    c = f['case']
+    return (c['target'] == 'status' and _shape(f) == 'description-escaped-again'
+            and (_escapable(c['params']['s']) or _escapable(c['params']['t'])))
+
+
+def _sel_status_blank_stripped(f):
+    """Status.__init__ strips every value that statusFromFile hands it, including the free-text description."""
+    c = f['case']
+    return (c['target'] == 'status' and _shape(f) == 'description-blank-stripped'
+            and (c['params']['s'] in ref.BLANK_EDGED or c['params']['t'] in ref.BLANK_EDGED))
+
+
+def _sel_outputs_percent(f):
+    """output.json is produced by re-reading output.txt with an interpolating ConfigParser: a '%' in a value raises."""
+    c = f['case']
+    return (c['target'] == 'outputs' and ('%' in OUT_FILES[c['params']['file']])
+            and 'InterpolationSyntaxError' in _shape(f))
+
+
+def _sel_outputs_blank_stripped(f):
+    """the INI round trip strips leading / trailing blanks of file names."""
+    c = f['case']
+    shp = _shape(f)
+    return (c['target'] == 'outputs' and c['params']['file'] in ('leading-blank', 'trailing-blank')
+            and bool(shp) and all(t in ('filename-blank-stripped', 'filepath-blank-stripped') for t in shp.split(',')))
+
+
+def _sel_details_renamed_after_failed_write(f):
+    """try_generate_status_details renames the temporary file over status_details.json although writing it failed."""
+    c = f['case']
+    kind, op = _mode_op(f)
+    return (c['target'] == 'details' and kind == 'ioerror' and op in DATA_OPS
+            and _shape(f).startswith('unloadable:') and (f['observed'] or {}).get('disk_is_proper_prefix_of_new_content') is True)
+
+
+def _in_place(label):
+    def sel(f):
+        c = f['case']
+        kind, op = _mode_op(f)
+        shp = _shape(f)
+        return (c['target'] == 'instance' and c['file'] == label and c.get('fault_file') == label
+                and kind in ('crash', 'ioerror', 'after-ioerror') and op in DATA_OPS
+                and (shp.startswith('unloadable:') or shp in ('partial', 'field-differs', 'other-value', 'absent'))
+                and (f['observed'] or {}).get('disk_is_proper_prefix_of_new_content') is True)
+    return sel
+
+
+KNOWN_SELECTORS = {
+    'status_description_escaped_again': _sel_status_escaped_again,
+    'status_description_blank_stripped': _sel_status_blank_stripped,
+    'outputs_percent_in_file_name': _sel_outputs_percent,
+    'outputs_file_name_blank_stripped': _sel_outputs_blank_stripped,
+    'details_renamed_after_failed_write': _sel_details_renamed_after_failed_write,
+    'flowir_instance_written_in_place': _in_place('flowir_instance.yaml'),
+    'manifest_written_in_place': _in_place('manifest.yaml'),
+}
